@@ -93,10 +93,16 @@ def templates():
     return out
 
 
-def assignments(scope, with_target):
+# INSERT without column list: target columns that are the select list's own names in ANOTHER order (positions must still win over names)
+PERMUTED_TARGET = {"positional_target": ["kk", "c1"], "positional_target_unq": ["d1", "c1"]}
+
+
+def assignments(scope, with_target, name=None):
     """every knowledge assignment: per scope table None (unknown) or one of its column sets; target None or a 2-column set"""
     choices = [[None] + COLSETS[i] for i in scope]
     tgt_choices = [None, ["t1", "t2"]] if with_target else [None]
+    if with_target and name in PERMUTED_TARGET:
+        tgt_choices.append(PERMUTED_TARGET[name])
     for combo in itertools.product(*choices):
         for tg in tgt_choices:
             md = {q(i): cols for i, cols in zip(scope, combo) if cols is not None}
@@ -228,7 +234,7 @@ def _enum_worker(payload):
     for name, build in templates():
         stmt, scope, flags = build()
         with_target = isinstance(stmt, (ir.Insert, ir.Ctas))  # a known CTAS target must change nothing: metadata names INSERT positions only
-        for md in assignments(scope, with_target):
+        for md in assignments(scope, with_target, name):
             idx += 1
             if idx % nshards != shard:
                 continue
@@ -252,7 +258,7 @@ def _random_worker(payload):
         stmt, scope, flags = build()
         md = {q(i): list(c) for i, c in zip(scope, cols) if c}
         if tg and isinstance(stmt, (ir.Insert, ir.Ctas)):
-            md["s9.tgt"] = ["t1", "t2"]
+            md["s9.tgt"] = PERMUTED_TARGET[name] if name in PERMUTED_TARGET and ti % 2 else ["t1", "t2"]
         return judge(stmt, name, scope, flags, md, res_, ctx, "random")
 
     colset = st.one_of(st.none(), st.lists(st.sampled_from(colpool), min_size=1, max_size=5, unique=True))
